@@ -113,7 +113,12 @@ class OperatorPar(OperatorBase):
         while depth>0:
             if len(expr.right)==0:
                 raise Exception("Unclosed parenthesis in", expr.expr)
-            elif expr.right.startswith(self.symbol) or expr.right.startswith(self.symbol_open):
+            elif expr.right.startswith(self.symbol):
+                # the same function nested in itself: step over its whole symbol, it opens one level only
+                depth += 1
+                expr.shift(len(self.symbol))
+                continue
+            elif expr.right.startswith(self.symbol_open):
                 depth += 1
             elif expr.right.startswith(self.symbol_separator) and depth==1:
                 expr.remove(self.symbol_separator)
